@@ -264,6 +264,14 @@ def _run(res, rng, tier, driver, work):
                             for at in points:
                                 run_point(res, fmt, cfg, sb, st, mode, at, enc, stale_variants, states, projs,
                                           next_lines, case_dir, load_dir, model_lines, impl_lines, cases)
+                                if mode == "fail" and cfg != "none" and real[at][0] != "write":
+                                    # once more with a persistence object that has a successful save behind it
+                                    WARM[0] = True
+                                    try:
+                                        run_point(res, fmt, cfg, sb, st, mode, at, enc, stale_variants, states, projs,
+                                                  next_lines, case_dir, load_dir, model_lines, impl_lines, cases)
+                                    finally:
+                                        WARM[0] = False
     res.exhaustive = tier == "thorough"
     res.extra["write_points"] = "every write call" if tier == "thorough" else \
         "first two, last two and two random write calls per configuration (all other operations: every one)"
@@ -307,6 +315,19 @@ def run_point(res, fmt, cfg, sb, st, mode, at, enc, stale_variants, states, proj
     names_enc = {"old": enc["old"], "new": enc["new"]}
     sensors = dict(states["new"])
     pers = pu.persistence_for(sensors, main)
+    if mode != "crash" and exists and WARM[0]:
+        # the same process has saved before: the object that now fails is the one that wrote the good file; the
+        # prior files are then put back exactly as configured
+        sensors.clear()
+        sensors.update(states["old"])
+        try:
+            pers.save_sensors()
+        except Exception:  # noqa: BLE001   (shows below as a failing next save)
+            pass
+        setup_case(case_dir, fmt, cfg, enc, stale_variants[sb], stale_variants[st])
+        sensors.clear()
+        sensors.update(states["new"])
+        pers.need_save = True
     snap = {}
 
     def on_crash(shim):
@@ -404,6 +425,7 @@ MODEL_NAMES = {True: ["openTmp", "write", "flush", "fsync", "close", "renMainBak
 
 
 FAMILY = ["chain"]
+WARM = [False]
 
 
 def family_states(states, name):
@@ -421,7 +443,7 @@ def record(res, cases, fmt, cfg, sb, st, mode, at, done, how, cls, nxt, exists, 
         res.distinct.add(digest([fmt, cfg, sb, st, mode, at, how]))
     allowed = {"new"} | ({"old"} if cfg != "none" else {"emptyNet"})
     case = {"family": FAMILY[0], "fmt": fmt, "cfg": cfg, "staleBak": sb, "staleTmp": st, "mode": mode, "real_op_index": at,
-            "before_model_op": opname, "loss": how, "loaded": cls, "next": nxt}
+            "before_model_op": opname, "loss": how, "loaded": cls, "next": nxt, "warm": WARM[0]}
     cases.append(case)
     if cls not in allowed:
         res.oracle_failures.append({"key": {"kind": mode, "cfg": cfg, "op": opname, "loss": how != "keep",
@@ -430,7 +452,8 @@ def record(res, cases, fmt, cfg, sb, st, mode, at, done, how, cls, nxt, exists, 
                                             f"the new state", "replay": case})
     if nxt != "next":
         res.oracle_failures.append({"key": {"kind": mode + "-next-save", "cfg": cfg, "op": opname, "result": nxt},
-                                    "what": f"the save after a {mode} at {opname} did not persist the current state ({nxt})",
+                                    "what": f"the save after a {mode} at {opname} did not persist the current state ({nxt})"
+                                            + (" (the process had saved successfully before)" if WARM[0] else ""),
                                     "replay": case})
 
 
@@ -455,6 +478,7 @@ def replay(payload):
         os.makedirs(case_dir)
         os.makedirs(load_dir)
         ml, il, cases = [], [], []
+        WARM[0] = bool(r.get("warm"))
         run_point(res, fmt, r["cfg"], r.get("staleBak", "w"), r.get("staleTmp", "w"), r["mode"],
                   r.get("real_op_index", r.get("at", 0)), enc, stale_variants, states, projs, script[3][1],
                   case_dir, load_dir, ml, il, cases)
